@@ -14,8 +14,8 @@ def cubes_resolve(tier):
 
 def cubes_move(tier):
     if tier == "quick":
-        return [dict(mapping=m, rkind="remote", _w=3) for m in (0, 1, 2, 3)] + [dict(mapping=1, rkind="base", _w=3), dict(mapping=2, rkind="remote", dup=True, _w=3)]
-    return [dict(mapping=m, rkind=r, dup=d, _w=3) for m in (0, 1, 2, 3) for r in ("remote", "base") for d in (False, True)]
+        return [dict(mapping=m, rkind="remote", _w=3) for m in (0, 1, 2, 3, 4)] + [dict(mapping=1, rkind="base", _w=3), dict(mapping=2, rkind="remote", dup=True, _w=3)]
+    return [dict(mapping=m, rkind=r, dup=d, _w=3) for m in (0, 1, 2, 3, 4) for r in ("remote", "base") for d in (False, True)]
 
 
 R_SMOKE = dict(q0=0, q1=1, ql=2, r0=0, r1=0, rl=1, s0=0, s1=1, sl=2, has0=True, has1=True, has2=True, d0=True, c0=True, m0=True,
@@ -33,7 +33,7 @@ SPEC = Spec(
           smoke=[{"args": R_SMOKE, "cube": {}}], encodes="StorageMapping.__getitem__/__setitem__, StorageInfo"),
         H("move", "vf.harness.c18_storage", "h_move", cubes_move, timeout={"quick": 600, "thorough": 1800}, real=True,
           bounds={"quick": "index over x/a, x/s/b (empty), y (same bytes as x/a) with symbolic presence; mappings: one prefix / `x` with its own "
-                           "remote / `x` with its own cache and remote / two disjoint prefixes sharing one remote; first push round with symbolic upload failures, clean retry, fetch into empty "
+                           "remote / `x` with its own cache and remote / two disjoint prefixes sharing one remote / a prefix inside an unloaded directory object; first push round with symbolic upload failures, clean retry, fetch into empty "
                            "caches, index checkout", "thorough": "both remote kinds for every mapping"},
           smoke=[{"args": M_SMOKE, "cube": {"mapping": m}} for m in (0, 2)],
           encodes="index.build.build, index.save.md5/save/_save_dir_entry/build_tree, index.collect.collect/_collect_from_index, index.push.push, "
